@@ -309,6 +309,17 @@ func GenTables(repo, out string) error {
 	if rl == nil {
 		return fmt.Errorf("RemoveEdges: no range loop")
 	}
+	// a local defined once before the loop (`rootdeg := t.Root().Nneigh()`) stands for its defining expression
+	for _, st := range re.Body.List {
+		if st == ast.Stmt(rl) {
+			break
+		}
+		if as, ok := st.(*ast.AssignStmt); ok && as.Tok == token.DEFINE && len(as.Lhs) == 1 && len(as.Rhs) == 1 {
+			if id, ok := as.Lhs[0].(*ast.Ident); ok {
+				sb[id.Name] = show(as.Rhs[0], sb)
+			}
+		}
+	}
 	if v, ok := rl.Value.(*ast.Ident); ok {
 		sb[v.Name] = "$e"
 	}
